@@ -148,7 +148,9 @@ def _normalize_seq_func(seq: Iterable[object]) -> tuple[object, ...]:
 
     with tokenize_lock:
         if id(seq) in _SEEN:
-            return "__seen", _SEEN[id(seq)][0]
+            # Not a tuple: the normalized items of a sequence are always a tuple, so
+            # no sequence (e.g. ["__seen", 1]) can spell a back-reference
+            return f"__seen:{_SEEN[id(seq)][0]}"  # type: ignore[return-value]
         _SEEN[id(seq)] = len(_SEEN), seq
         try:
             return tuple(map(_inner_normalize_token, seq))
